@@ -400,6 +400,23 @@ class World:
                 leaves = [h for h in leafish if not self.mdib.descriptions.parent_handle.get(h)]
                 pool = leaves if (leaves and r.random() < 0.75) else leafish
                 script['calls'].append(['removeDescr', self.pick(pool)])
+            elif z < 0.8 and r.random() < 0.3 and templates:
+                # entity interface: create through entities.new_entity + write_entity / write_entities (a new node, or a new
+                # channel-like parent together with a new child, handed over child first), or remove through remove_entity
+                y = r.random()
+                if y < 0.45:
+                    h = r.choice(sorted(self.removed_descr)) if (self.removed_descr and r.random() < 0.4) else f'ne{self.new_n}'
+                    self.new_n += 1
+                    script['calls'].append(['newEntity', h, r.choice(templates), r.randrange(1000)])
+                elif y < 0.75:
+                    inner = [h for h in leafish if self.mdib.descriptions.parent_handle.get(h)
+                             and not self.mdib.descriptions.handle.get_one(h).is_context_descriptor]
+                    if inner:
+                        script['calls'].append(['newEntities', f'np{self.new_n}', r.choice(inner), f'nc{self.new_n}', r.choice(templates),
+                                                r.choice(templates) if r.random() < 0.5 else None, r.randrange(1000)])
+                        self.new_n += 1
+                else:
+                    script['calls'].append(['removeEntity', self.pick(leafish)])
             elif z < 0.8:
                 # add: re-create a removed descriptor (same handle) or clone a template under the same parent
                 if self.removed_descr and r.random() < 0.5:
@@ -771,6 +788,77 @@ class World:
                     self.mutate_state(ent.state, n)
                     self.emit(head + f' single {ent.state.StateVersion} {self.sbody(ent.state)}', 'ok')
                 mgr.write_entity(ent)
+            elif op == 'removeEntity':
+                try:
+                    ent = m.entities.by_handle(call[1])
+                except KeyError:
+                    ent = None
+                if ent is None:
+                    return
+                self.emit(f'removeDescr {H(call[1])}', 'ok')
+                mgr.remove_entity(ent)
+            elif op in ('newEntity', 'newEntities'):
+                def fresh(handle, tmpl_handle, parent=None):
+                    t = m.descriptions.handle.get_one(tmpl_handle, allow_none=True)
+                    if t is None:
+                        return None
+                    # (new_entity needs an existing parent: a child of a parent that is created in the same call gets its
+                    #  parent handle afterwards)
+                    e = m.entities.new_entity(t.NODETYPE, handle, t.parent_handle)
+                    keep = (e.descriptor.Handle, parent if parent is not None else e.descriptor.parent_handle, e.descriptor.source_mds)
+                    for name, _ in t.sorted_container_properties():
+                        if name not in ('Handle', 'DescriptorVersion'):
+                            setattr(e.descriptor, name, copy.deepcopy(getattr(t, name)))
+                    e.descriptor.Handle, e.descriptor.parent_handle = keep[0], keep[1]
+                    e.descriptor._source_mds = keep[2]  # noqa: SLF001
+                    return e
+
+                def line(e):
+                    d = e.descriptor
+                    return (f'writeEntity {H(d.Handle)} {H(d.parent_handle)} {kind_of(d)} {d.DescriptorVersion} {self.dbody(d)} {H(d.source_mds)}'
+                            f' single {e.state.StateVersion} {self.sbody(e.state)}')
+                if op == 'newEntity':
+                    _, h, tmpl, n = call
+                    if m.descriptions.handle.get_one(h, allow_none=True) is not None:
+                        return
+                    e = fresh(h, tmpl)
+                    if e is None or e.is_multi_state:
+                        return
+                    self.mutate_descr(e.descriptor, n)
+                    self.mutate_state(e.state, n)
+                    self.emit(line(e), 'ok')
+                    mgr.write_entity(e)
+                else:
+                    _, ph, ptmpl, ch, ctmpl, extra, n = call
+                    parent = fresh(ph, ptmpl)
+                    if parent is None or parent.is_multi_state:
+                        return
+                    child = fresh(ch, ctmpl, parent=ph)
+                    if child is None or child.is_multi_state:
+                        return
+                    ents = [child, parent]                     # child first: write_entities has to write the parent first
+                    if extra is not None:
+                        try:
+                            x = m.entities.by_handle(extra)
+                        except KeyError:
+                            x = None
+                        if x is not None and not x.is_multi_state:
+                            self.mutate_state(x.state, n)
+                            ents.insert(1, x)
+                    for e in (child, parent):
+                        self.mutate_descr(e.descriptor, n)
+                    # the documented order: repeatedly, in the given order, everything whose parent is not still waiting
+                    order, waiting = [], {e.handle: e for e in ents}
+                    while waiting:
+                        for hh, e in list(waiting.items()):
+                            if not (e.parent_handle in waiting and e.parent_handle != hh):
+                                order.append(e)
+                                del waiting[hh]
+                    for e in order:
+                        self.emit(line(e), 'ok')
+                        if e.handle in mgr.descriptor_updates:
+                            break                               # this one is refused; the real call stops here, too
+                    mgr.write_entities(ents)
             elif op == 'addStateDup':
                 h = call[1]
                 d = m.descriptions.handle.get_one(h, allow_none=True)
